@@ -183,6 +183,16 @@ class AsyncSimpleAdapter:
                 elif op == 'reconnect':
                     me.accept_sid[0] = 'S2'
                     me._release_backoff('timeout')
+                elif op == 'refail':
+                    # the first attempt fails at the transport ...
+                    w.connect_outcomes = ['fail']
+                    me.accept_sid[0] = 'S2'
+                    me._release_backoff('timeout')
+                    for _ in range(50):
+                        await asyncio.sleep(0)
+                    # ... the second, a step of its own, succeeds
+                    await g.gate('c.retry')
+                    me._release_backoff('timeout')
                 for _ in range(50):
                     await asyncio.sleep(0)
                 me.ck += 1
